@@ -32,17 +32,33 @@ PID = 'C11'
 RULE = ('cases = (kind, mode, package, sources, permutation | constant | history) with kind in filter_perm / model_perm / '
         'scale / history, mode in distance-independent / distance-dependent; <= 6 filters, <= 8 models (some duplicated), '
         'constants 1e-4..1e4, histories of <= 6 fits over <= 4 sources; sources as in C01/C02 (>= 2 fitted bands with distinct '
-        'extinction coefficient, all six flags, ignored bands carrying arbitrary values); thorough enumerates every permutation '
+        'extinction coefficient, all six flags, ignored bands carrying arbitrary values); packages as convolved-flux files '
+        '(version 1) or SED cubes (version 2) with wavelength / named / mixed filter lists, use_memmap off / on, model names in '
+        'non-alphabetical order, remove_resolved on / off in the distance-dependent mode; thorough enumerates every permutation '
         'of 2..4 filters and of 2..4 models in both modes; non-trivial = the permutation is not the identity / c != 1 / the '
         'history has a repeated or interleaved source; distinct = canonical hash of the generated inputs')
-REQUIRED_BRANCHES = ['filter_perm', 'filter_perm_interior', 'shared_extinction_object', 'model_perm', 'scale', 'history', 'mode_indep', 'mode_dist', 'tie_group',
+REQUIRED_BRANCHES = ['fmt_files', 'fmt_cube_wav', 'fmt_cube_named', 'fmt_cube_mixed', 'memmap_on', 'memmap_off', 'remove_resolved',
+                     'names_unsorted', 'filter_perm_cube', 'model_perm_cube', 'history_cube',
+                     'filter_perm', 'filter_perm_interior', 'shared_extinction_object', 'model_perm', 'scale', 'history', 'mode_indep', 'mode_dist', 'tie_group',
                      'scale_up', 'scale_down', 'limits_present', 'flag4_present', 'ignored_present', 'model_corr',
                      'history_repeat', 'history_interleaved']
 ASSUMPTIONS = ['IEEE rounding is not modelled: permuting filters changes the order of the floating-point sums, scaling changes '
                'the rounding of log10; tolerance 1e-9 x condition number',
-               'a limit closer than 1e-7 to the fitted model, or two trial distances whose chi2 agree to 1e-9, may be decided '
-               'differently by the two runs of a pair: such models are skipped (counted as margin_relaxed)',
-               'history and model-permutation pairs are compared to 1e-12 / bit for bit']
+               'a limit closer than 1e-7 to the fitted model may be decided differently by the two runs of a pair: such models are '
+               'skipped (counted as margin_relaxed); two runs reporting different trial distances with equal chi2 are accepted only '
+               'after verifying, by fitting at each of the two distances alone, that the distances are tied to rounding',
+               'history and model-permutation pairs are compared to 1e-12 / bit for bit',
+               '"multiplying every flux and error by a constant": linear fluxes (flags 1, 2, 3) and linear errors (flag 1) are '
+               'multiplied; a confidence (the error slot of a limit) is not an error and is kept; a flag-4 band holds log10 flux '
+               'and log10 error, so the same physical rescaling adds log10(c) to its flux slot and leaves its error slot alone; '
+               'flag-0 / flag-9 bands may carry anything (theorem C11_scale states exactly this relation, ScaledObs)',
+               'with use_memmap=True (float32 model fluxes) the members of a pair see the same float32 values, so pairs stay '
+               'comparable to float64 rounding; the comparison with the exact model under a float32 budget is C07\'s and is not '
+               'repeated here (the model still supplies the condition number)',
+               'named filters of cube packages are convolved-flux files written next to flux.fits (what convolve_model_dir '
+               'leaves behind; the convolution itself is C06/C07)',
+               'the source must not be modified (compared by digest before / after); whether FitInfo.source is the same object '
+               'or a copy is not part of the property']
 EXHAUSTIVE = {'quick': False, 'thorough': True}
 N = {'quick': dict(filter_perm=24, model_perm=24, scale=30, history=24),
      'thorough': dict(filter_perm=600, model_perm=600, scale=1000, history=600)}
@@ -118,7 +134,8 @@ def gen_sources(rng, pkg, n):
     return [gen_source(rng, pkg) for _ in range(n)]
 
 
-def gen_case(rng, kind, mode, perm=None, nb=None, nm=None, c=None, interior=False):
+def gen_case(rng, kind, mode, perm=None, nb=None, nm=None, c=None, interior=False, fmt=None, memmap=None,
+             resolved=None):
     nb = nb or rng.randint(2, 6)
     nm = nm or rng.randint(2 if kind == 'model_perm' else 1, 8)
     case = gen_package(rng, nb, nm, dup=(kind == 'model_perm'))
@@ -164,6 +181,17 @@ def gen_case(rng, kind, mode, perm=None, nb=None, nm=None, c=None, interior=Fals
         else:
             hist = [rng.randrange(k) for _ in range(n)]
         case['history'] = hist
+    # package format / storage / resolved-model removal / model names: drawn last, so that the streams above are unchanged
+    fmt = fmt or rng.choice(['files', 'files', 'cube_wav', 'cube_named', 'cube_mixed'])
+    case['fmt'] = fmt
+    case['memmap'] = bool(memmap) if memmap is not None else (fmt != 'files' and rng.random() < 0.4)
+    case['resolved'] = bool(resolved) if resolved is not None else (mode == 'dist' and rng.random() < 0.4)
+    if fmt == 'cube_mixed':
+        k = rng.randint(1, max(1, nb - 1))
+        case['named'] = sorted(rng.sample(range(nb), k))
+    # model names in no particular (in particular not alphabetical) order, as in real packages
+    labels = ['%s%02d' % (rng.choice('zqmakxcb'), i) for i in range(nm)]
+    case['names'] = labels
     return case
 
 
@@ -174,11 +202,17 @@ def gen_cases(seed, tier):
                 ('filter_perm', 'indep', 'interior'), ('filter_perm', 'dist', 'interior'), ('model_perm', 'indep', None),
                 ('model_perm', 'dist', None), ('scale', 'indep', 2500.), ('scale', 'indep', 0.004),
                 ('history', 'indep', None), ('history', 'dist', None)]
+    # (format, use_memmap, remove_resolved) of the directed cases: every format, both storages, resolved removal on
+    variants = [('files', False, False), ('cube_wav', True, True), ('cube_named', False, True), ('cube_mixed', True, False),
+                ('cube_wav', False, False), ('cube_mixed', False, True), ('cube_named', True, False), ('files', False, True),
+                ('cube_wav', True, False), ('cube_mixed', True, True)]
     for kind, mode, c in directed:
         rng = case_rng(seed, PID, i)
         interior = (c == 'interior')
         c = None if interior else c
-        case = gen_case(rng, kind, mode, nb=5, nm=(4 if kind == 'model_perm' else None), c=c, interior=interior)
+        fmt, mm, rr = variants[i % len(variants)]
+        case = gen_case(rng, kind, mode, nb=5, nm=(4 if kind == 'model_perm' else None), c=c, interior=interior,
+                        fmt=fmt, memmap=mm, resolved=(rr and mode == 'dist'))
         case['sources'][0] = gen_source(rng, case, flags=[1, 4, 3, 0, 2])
         if kind == 'history':
             case['history'] = [0, 1, 0, 0, 1]
@@ -207,44 +241,73 @@ def gen_cases(seed, tier):
 # ----------------------------------------------------------------------------- real side
 
 def names_of(case):
-    return ['m%03d' % i for i in range(len(case['models']))]
+    return list(case.get('names') or ['m%03d' % i for i in range(len(case['models']))])
+
+
+def named_filters(case):
+    """indices of the filters given to Fitter by name (the others are given as wavelength Quantities)"""
+    fmt = case.get('fmt', 'files')
+    nb = len(case['wavs'])
+    if fmt in ('files', 'cube_named'):
+        return set(range(nb))
+    if fmt == 'cube_wav':
+        return set()
+    return set(case.get('named', [0]))
 
 
 def write_package(case, d, mode, row_order=None):
-    """convolved/F<j>.fits for every filter; rows in `row_order` (default natural)"""
+    """the package in the case's format, model rows in `row_order` (default natural):
+    files       version 1: convolved/F<j>.fits for every filter
+    cube_wav    version 2: flux.fits (SED cube tabulated at the filters' wavelengths and one more), fitted at wavelengths
+    cube_named  version 2: flux.fits plus convolved/F<j>.fits for every filter (what convolve_model_dir leaves behind)
+    cube_mixed  version 2: flux.fits plus convolved files for the filters in case['named']"""
     nm = len(case['models'])
     names = names_of(case)
     order = list(row_order) if row_order is not None else list(range(nm))
-    if mode == 'indep':
-        pk.write_conf(d, aperture_dependent=False)
+    fmt = case.get('fmt', 'files')
+    dist = (mode != 'indep')
+    nap = len(case['aps']) if dist else 1
+
+    def flux_of(i, j):
+        return [case['models'][i][j] * g for g in case['grow'][i][j]] if dist else [case['models'][i][j]]
+
+    if fmt == 'files':
+        pk.write_conf(d, aperture_dependent=dist, logd_step=case['step'])
     else:
-        pk.write_conf(d, aperture_dependent=True, logd_step=case['step'])
-    for j, w in enumerate(case['wavs']):
-        if mode == 'indep':
-            flux = [[case['models'][i][j]] for i in order]
-            pk.write_convolved(d, 'F%d' % j, w, [names[i] for i in order], flux, [[0.] for _ in order])
-        else:
-            flux = [[case['models'][i][j] * g for g in case['grow'][i][j]] for i in order]
-            pk.write_convolved(d, 'F%d' % j, w, [names[i] for i in order], flux,
-                               np.zeros((nm, len(case['aps']))), apertures_au=case['aps'])
+        extra = float('%.3g' % (max(case['wavs']) * 2.5))
+        wav = list(case['wavs']) + [extra]
+        val = np.ones((nm, nap, len(wav)))
+        for r, i in enumerate(order):
+            for j in range(len(case['wavs'])):
+                val[r, :, j] = flux_of(i, j)
+        pk.write_cube_package(d, [names[i] for i in order], wav, val, np.zeros_like(val),
+                              apertures_au=(case['aps'] if dist else None), aperture_dependent=dist,
+                              logd_step=case['step'])
+    for j in sorted(named_filters(case)):
+        pk.write_convolved(d, 'F%d' % j, case['wavs'][j], [names[i] for i in order], [flux_of(i, j) for i in order],
+                           np.zeros((nm, nap)), apertures_au=(case['aps'] if dist else None))
 
 
 def make_ext(case):
     return pk.make_extinction(case['tab_w'], case['tab_chi'])
 
 
-def make_fitter(case, d, mode, filter_order=None, ext=None):
+def make_fitter(case, d, mode, filter_order=None, ext=None, drange=None):
     """`ext`: the Extinction object to use; the fitters of one pair / history share ONE object, as a user script that
     builds several Fitters (or calls fit() several times) with `extinction_law=law` does"""
     nb = len(case['wavs'])
     order = list(filter_order) if filter_order is not None else list(range(nb))
     if ext is None:
         ext = make_ext(case)
-    fnames = ['F%d' % j for j in order]
+    from astropy import units as u
+    named = named_filters(case)
+    fnames = [('F%d' % j) if j in named else case['wavs'][j] * u.micron for j in order]
+    memmap = bool(case.get('memmap', False))
     if mode == 'indep':
-        return pk.make_fitter(d, fnames, [1.] * nb, ext, case['av'])
+        return pk.make_fitter(d, fnames, [1.] * nb, ext, case['av'], use_memmap=memmap)
     return pk.make_fitter(d, fnames, [case['theta'][j] for j in order], ext, case['av'],
-                          distance_range_kpc=case['drange'])
+                          distance_range_kpc=(drange if drange is not None else case['drange']), use_memmap=memmap,
+                          remove_resolved=bool(case.get('resolved', False)))
 
 
 def fit(fitter, s, tag='s'):
@@ -274,7 +337,22 @@ def limit_margin(s, a, row):
     return m
 
 
-def compare_pair(a, b, sa, sb, tol, mode, col_map=None, sc_shift=0., what=''):
+def chi2_at_distance(case, d, mode, ext, s, name, logd):
+    """chi2 of model `name` for source `s` at the single trial distance 10**logd (a Fitter whose range is that one distance)"""
+    dd = 10. ** float(logd)
+    f = make_fitter(case, d, mode, ext=ext, drange=[dd, dd])
+    a = fit(f, s)
+    return float(a['chi2'][c03.by_name(a)[name]])
+
+
+def near_tie(case, d, mode, ext, s, name, logd_a, logd_b, tol):
+    """True when model `name` really has chi2 equal to rounding at the two trial distances"""
+    ca = chi2_at_distance(case, d, mode, ext, s, name, logd_a)
+    cb = chi2_at_distance(case, d, mode, ext, s, name, logd_b)
+    return c03.same_num(ca, cb, max(tol, 1e-9))
+
+
+def compare_pair(a, b, sa, sb, tol, mode, col_map=None, sc_shift=0., what='', tie_check=None):
     """per-model comparison of two results; col_map[j] = column of `a` that column j of `b` corresponds to.
     returns (error or None, relaxed)"""
     ia, ib = c03.by_name(a), c03.by_name(b)
@@ -291,9 +369,15 @@ def compare_pair(a, b, sa, sb, tol, mode, col_map=None, sc_shift=0., what=''):
         oks = c03.same_num(float(a['sc'][ra]) + sc_shift, float(b['sc'][rb]), tol)
         oka = c03.same_num(a['av'][ra], b['av'][rb], tol)
         if mode == 'dist' and okc and not (oks and oka):
-            # two trial distances with chi2 equal to rounding: either may be reported
-            relaxed += 1
-            continue
+            # the two runs report different trial distances with the same chi2: acceptable only if the two distances really
+            # are tied to rounding for this model, which is verified by fitting at each of the two distances alone
+            if tie_check is not None and tie_check(n, float(a['sc'][ra]), float(b['sc'][rb]), tol * 100):
+                relaxed += 1
+                continue
+            return ('%s: model %s: the two runs report different distances / A_V with equal chi2, and the two distances are NOT '
+                    'tied: (av, sc, chi2) = (%r, %r, %r) vs (%r, %r, %r); sources %r / %r'
+                    % (what, n, float(a['av'][ra]), float(a['sc'][ra]), c2a, float(b['av'][rb]), float(b['sc'][rb]), c2b,
+                       sa, sb)), relaxed
         okf = True
         for j in range(len(sb['flags'])):
             ja = col_map[j] if col_map is not None else j
@@ -324,6 +408,10 @@ def model_check(case, s, a, branches, stats, exp=None):
     """impl vs Lean model for one source (distance-independent mode); returns (error or None, model rows)"""
     if exp is None:
         exp = c01.model_side(case, s)
+    if case.get('memmap'):
+        # float32 model fluxes: the comparison with the exact model under a float32 budget is C07's; here the model only
+        # supplies the condition number for the tolerance of the paired runs
+        return None, exp
     names = names_of(case)
     branches.add('model_corr')
     for row, nme in enumerate(a['name']):
@@ -393,7 +481,8 @@ def run_filter_perm(case, use_model, branches, stats, dirs):
             cond = cond_of(ea)
         # the property itself, on the real code
         err, rel = compare_pair(a, b, s, sp, 1e-9 * max(1., cond), mode, col_map=perm,
-                                what='filters %r vs identity' % (perm,))
+                                what='filters %r vs identity' % (perm,),
+                                tie_check=lambda n, x, y, t, s=s: near_tie(case, d, mode, ext, s, n, x, y, t))
         stats['relaxed'] += rel
         if err:
             return CaseResult(False, violates=True, detail='filter_perm (%s): %s' % (mode, err))
@@ -430,7 +519,8 @@ def run_model_perm(case, use_model, branches, stats, dirs):
             err, _ = model_check(case, s, a, branches, stats)
             if err:
                 return CaseResult(False, violates=None, detail='model_perm: ' + err)
-        err, rel = compare_pair(a, b, s, s, 1e-12, mode, what='model rows %r vs identity' % (perm,))
+        err, rel = compare_pair(a, b, s, s, 1e-12, mode, what='model rows %r vs identity' % (perm,),
+                                tie_check=lambda n, x, y, t, s=s: near_tie(case, da, mode, ext, s, n, x, y, t))
         stats['relaxed'] += rel
         if err:
             return CaseResult(False, violates=True, detail='model_perm (%s): %s' % (mode, err))
@@ -552,8 +642,6 @@ def run_history(case, use_model, branches, stats, dirs):
         with common.quiet():
             info = f.fit(src)
         got = pk.fit_arrays(info)
-        if info.source is not src:
-            return CaseResult(False, violates=True, detail='history: FitInfo.source is not the source object that was fitted')
         if source_digest(src) != sd0:
             return CaseResult(False, violates=True,
                               detail='history %r step %d (%s): Fitter.fit modified the source: now valid=%r flux=%r error=%r, '
@@ -575,7 +663,15 @@ RUNNERS = dict(filter_perm=run_filter_perm, model_perm=run_model_perm, scale=run
 
 
 def run_case(case, use_model=True):
-    branches = {case['kind'], 'mode_' + case['mode']}
+    branches = {case['kind'], 'mode_' + case['mode'], 'fmt_' + case.get('fmt', 'files'),
+                'memmap_on' if case.get('memmap') else 'memmap_off'}
+    if case.get('resolved'):
+        branches.add('remove_resolved')
+    if names_of(case) != sorted(names_of(case)):
+        branches.add('names_unsorted')
+    for k in ('filter_perm', 'model_perm', 'history'):
+        if case['kind'] == k and case.get('fmt', 'files') != 'files':
+            branches.add(k + '_cube')
     stats = dict(relaxed=0)
     dirs = []
     try:
